@@ -144,6 +144,7 @@ class Evaluator(object):
             self.used = 0
             self.sym_truth = {}
             self.trace = []
+            self.opaque_calls = []
             so = self_obj() if callable(self_obj) else self_obj
             try:
                 out = self._call(fi, dict(args), so)
@@ -718,6 +719,8 @@ class Evaluator(object):
                 raise _Raise("AttributeError")
         # package-level functions and classes
         r = self.prog.resolve(fi.module, f)
+        if r in self.stubs:
+            return self.stubs[r](*args, **kwargs)
         if r in self.prog.funcs:
             callee = self.prog.funcs[r]
             params = [x.arg for x in callee.node.args.args]
